@@ -229,6 +229,17 @@ Accepted == IsGen => /\ tv.keys = Keys(tv.gen)
                      /\ (~tv.passed => tv.vals = DefaultRow(tv.gen))
 
 \* flags have their documented effect
+(* The shipped command-line entry points (python -m cyecca.models.<m> <dir>) run one after the other into ONE
+   directory, which is what generating all the C code of a vehicle means: afterwards the directory holds, for every
+   entry point that ran, its own file with exactly its own inventory -- whatever the order (an entry point neither
+   overwrites nor removes another one's output).  The harness runs every order of SharedOrders. *)
+EntrySets == <<"rdd2", "rdd2_loglinear", "bezier">>
+RotSeq(q, r) == [i \in 1..Len(q) |-> q[((i - 1 + r) % Len(q)) + 1]]
+SharedOrders == IF Tier = "quick" THEN {EntrySets, Reverse(EntrySets)}
+                ELSE {RotSeq(EntrySets, r) : r \in 0..(Len(EntrySets) - 1)} \cup {Reverse(RotSeq(EntrySets, r)) : r \in 0..(Len(EntrySets) - 1)}
+SharedDirFinal(o) == [s \in Range(o) |-> Names(s)]
+ASSUME \A o1, o2 \in SharedOrders : SharedDirFinal(o1) = SharedDirFinal(o2)
+ASSUME \A a, b \in Range(EntrySets) : a # b => \E o \in SharedOrders : \E i, j \in DOMAIN o : i < j /\ o[i] = a /\ o[j] = b
 Shape == IsGen => /\ tv.header    = Opt(tv.gen, tv.vals, "with_header")
                   /\ tv.memtable  = Opt(tv.gen, tv.vals, "with_mem")
                   /\ tv.file \in tv.cofiles
